@@ -1,5 +1,7 @@
 import AquaVerif.Proofs.Response
+import AquaVerif.Proofs.PowSq
 import Mathlib.Analysis.SpecialFunctions.Log.Basic
+import Mathlib.Analysis.SpecialFunctions.Pow.Real
 import Mathlib.Analysis.Complex.ExponentialBounds
 /-
 Non-vacuity of the law structures of `Proofs/Response.lean`: the real exponential and logarithm
@@ -15,12 +17,14 @@ namespace Aqua.Response
 open Real Aqua
 
 /-- the real-number instance of the non-algebraic functions.  `round*` are placeholders
-(no law of this work package mentions them); `pow` is `exp (y · log x)` (valid for `x > 0`). -/
+(no law of this work package mentions them); `pow` is the real power `Real.rpow`, which is
+`exp (y · log x)` for `x > 0` (`realFn_pow_of_pos`), `0 ** y = 0` for `y ≠ 0`, and `x ** 2 = x · x`
+for every `x` (`powSqLaw_real`; the former definition `exp (y · log x)` gave `0 ** 2 = 1`). -/
 noncomputable def realFn : Fn ℝ where
   exp := Real.exp
   log := Real.log
   log10 := fun x => Real.log x / Real.log 10
-  pow := fun x y => Real.exp (y * Real.log x)
+  pow := fun x y => Real.rpow x y
   round0 := fun x => x
   round2 := fun x => x
   round3 := fun x => x
@@ -31,6 +35,22 @@ theorem expOrdLaws_real : ExpOrdLaws realFn :=
   ⟨Real.exp_pos, Real.exp_zero, fun _ _ h => Real.exp_lt_exp.mpr h⟩
 
 theorem expAddLaw_real : ExpAddLaw realFn := ⟨Real.exp_add⟩
+
+/-- for a positive base the real power is `exp (y · log x)` -/
+theorem realFn_pow_of_pos {x : ℝ} (hx : 0 < x) (y : ℝ) :
+    realFn.pow x y = Real.exp (y * Real.log x) := by
+  show x ^ y = _
+  rw [Real.rpow_def_of_pos hx, mul_comm]
+
+theorem realFn_pow_pos {x : ℝ} (hx : 0 < x) (y : ℝ) : 0 < realFn.pow x y :=
+  Real.rpow_pos_of_pos hx y
+
+theorem realFn_pow_nonneg {x : ℝ} (hx : 0 ≤ x) (y : ℝ) : 0 ≤ realFn.pow x y :=
+  Real.rpow_nonneg hx y
+
+/-- **`x ** 2 = x · x` for every real `x`** (also `x ≤ 0`) -/
+theorem powSqLaw_real : PowSqLaw realFn :=
+  ⟨fun x => by show x ^ (2 : ℝ) = x * x; rw [Real.rpow_two, sq]⟩
 
 theorem logExpLaws_real : LogExpLaws realFn :=
   ⟨fun _ hx => Real.exp_log hx, Real.log_exp⟩
@@ -194,6 +214,7 @@ section AxiomAudit
 open Aqua Aqua.Response
 #print axioms expOrdLaws_real
 #print axioms expAddLaw_real
+#print axioms powSqLaw_real
 #print axioms logExpLaws_real
 #print axioms drel_range
 #print axioms drel_mono
